@@ -50,6 +50,13 @@ pub struct Sig {
     pub result: Option<Ty>,
     /// short description, used in violation keys
     pub label: String,
+    /// resource signature: import-only function `oJ` of interface `t:t/r` whose parameter carries
+    /// owned handles of the imported resource `thing`; `expect` is the parameter the guest builds,
+    /// with `Val::Handle(id)` naming the thing created with that id
+    pub res: bool,
+    pub expect: Option<Val>,
+    /// Rust expression (in terms of `R` = the bindings module of `t:t/r`) building the parameter
+    pub build: String,
 }
 
 impl Sig {
@@ -112,10 +119,68 @@ pub fn alphabet() -> Vec<Sig> {
     for (pn, p) in &params {
         for (rn, r) in &results {
             let k = out.len();
-            out.push(Sig { k, name: format!("h{k}"), params: p.clone(), result: r.clone(), label: format!("({pn})->{rn}") });
+            out.push(Sig { k, name: format!("h{k}"), params: p.clone(), result: r.clone(), label: format!("({pn})->{rn}"), res: false, expect: None, build: String::new() });
         }
     }
     out
+}
+
+pub const RES_IFACE: &str = "t:t/r";
+
+/// Async-import signatures whose parameter carries owned handles of an imported resource:
+/// direct, in a record, and inside list elements without and with a string next to them.
+pub fn res_alphabet(first_k: usize) -> Vec<Sig> {
+    let own = Ty::Own(0);
+    let h = |id: u32| Val::Handle(id);
+    let shapes: Vec<(&str, Ty, Val, &str)> = vec![
+        ("own", own.clone(), h(101), "R::Thing::new(101)"),
+        ("record{u32,own}", Ty::Record(vec![Ty::U32, own.clone()]), Val::Record(vec![Val::U(7), h(101)]), "R::RecThing { a: 7, h: R::Thing::new(101) }"),
+        ("list<own>", Ty::List(Box::new(own.clone())), Val::List(vec![h(101), h(102)]), "vec![R::Thing::new(101), R::Thing::new(102)]"),
+        (
+            "list<tuple<own,u32>>",
+            Ty::List(Box::new(Ty::Tuple(vec![own.clone(), Ty::U32]))),
+            Val::List(vec![Val::Record(vec![h(101), Val::U(1)]), Val::Record(vec![h(102), Val::U(2)])]),
+            "vec![(R::Thing::new(101), 1u32), (R::Thing::new(102), 2u32)]",
+        ),
+        (
+            "list<tuple<own,string>>",
+            Ty::List(Box::new(Ty::Tuple(vec![own.clone(), Ty::String]))),
+            Val::List(vec![Val::Record(vec![h(101), Val::Str("a".into())]), Val::Record(vec![h(102), Val::Str("bb".into())])]),
+            "vec![(R::Thing::new(101), \"a\".to_string()), (R::Thing::new(102), \"bb\".to_string())]",
+        ),
+        (
+            "list<record{u32,own}>",
+            Ty::List(Box::new(Ty::Record(vec![Ty::U32, own.clone()]))),
+            Val::List(vec![Val::Record(vec![Val::U(7), h(101)]), Val::Record(vec![Val::U(8), h(102)])]),
+            "vec![R::RecThing { a: 7, h: R::Thing::new(101) }, R::RecThing { a: 8, h: R::Thing::new(102) }]",
+        ),
+    ];
+    shapes
+        .into_iter()
+        .enumerate()
+        .map(|(j, (label, t, v, build))| Sig {
+            k: first_k + j,
+            name: format!("o{j}"),
+            params: vec![t],
+            result: Some(Ty::U32),
+            label: format!("({label})->u32"),
+            res: true,
+            expect: Some(Val::Record(vec![v])),
+            build: build.to_string(),
+        })
+        .collect()
+}
+
+fn res_wit(t: &Ty) -> String {
+    match t {
+        Ty::Own(_) => "thing".into(),
+        Ty::U32 => "u32".into(),
+        Ty::String => "string".into(),
+        Ty::Record(_) => "rec-thing".into(),
+        Ty::List(e) => format!("list<{}>", res_wit(e)),
+        Ty::Tuple(f) => format!("tuple<{}>", f.iter().map(res_wit).collect::<Vec<_>>().join(", ")),
+        o => panic!("res_wit {o}"),
+    }
 }
 
 pub struct World {
@@ -126,7 +191,11 @@ pub struct World {
 pub fn world(sigs: Vec<Sig>) -> World {
     let mut doc = refabi::wit::WitDoc::new();
     let mut lines = String::new();
-    for s in &sigs {
+    let mut rlines = String::new();
+    for s in sigs.iter().filter(|s| s.res) {
+        writeln!(rlines, "  {}: async func(x: {}) -> u32;", s.name, res_wit(&s.params[0])).unwrap();
+    }
+    for s in sigs.iter().filter(|s| !s.res) {
         let ps: Vec<String> = s.params.iter().enumerate().map(|(i, t)| format!("a{i}: {}", doc.expr(t))).collect();
         let r = s.result.as_ref().map(|t| format!(" -> {}", doc.expr(t))).unwrap_or_default();
         writeln!(lines, "  {}: async func({}){r};", s.name, ps.join(", ")).unwrap();
@@ -137,7 +206,7 @@ pub fn world(sigs: Vec<Sig>) -> World {
     let end = text.find("}\n\nworld w {").expect("WitDoc layout");
     let defs = &text[start..end];
     let wit = format!(
-        "package t:t;\n\ninterface i {{\n{defs}{lines}}}\n\ninterface p {{\n  pause: async func();\n}}\n\ninterface d {{\n  drive: async func(k: u32);\n}}\n\nworld w {{\n  import i;\n  import p;\n  export i;\n  export d;\n}}\n"
+        "package t:t;\n\ninterface i {{\n{defs}{lines}}}\n\ninterface p {{\n  pause: async func();\n}}\n\ninterface d {{\n  drive: async func(k: u32);\n}}\n\ninterface r {{\n  resource thing {{\n    constructor(id: u32);\n  }}\n  record rec-thing {{ a: u32, h: thing }}\n{rlines}}}\n\nworld w {{\n  import i;\n  import p;\n  import r;\n  export i;\n  export d;\n}}\n"
     );
     World { wit, sigs }
 }
@@ -146,6 +215,12 @@ pub fn world(sigs: Vec<Sig>) -> World {
 pub fn directives(v: Variant, sigs: &[Sig]) -> Vec<String> {
     let mut d = vec!["t:t/p#pause".to_string(), "t:t/d#drive".to_string()];
     for s in sigs {
+        if s.res {
+            if v.async_import() {
+                d.push(format!("import:{RES_IFACE}#{}", s.name));
+            }
+            continue;
+        }
         if v.async_import() {
             d.push(format!("import:{IFACE}#{}", s.name));
         }
@@ -160,6 +235,10 @@ pub fn directives(v: Variant, sigs: &[Sig]) -> Vec<String> {
 /// Values of a signature: parameter tuples and results paired index-wise (each-choice), at most
 /// `cap` cases; every value of every position's alphabet (up to the cap) appears.
 pub fn cases(s: &Sig, cap: usize) -> Vec<(Val, Val)> {
+    if s.res {
+        // one case: the parameter is built by the guest (`expect`), the reply is fixed
+        return vec![(Val::Record(vec![]), Val::U(4242))];
+    }
     let pvals: Vec<Vec<Val>> = s.params.iter().map(|t| spread(refabi::universe::values(t), cap)).collect();
     let rvals: Vec<Val> = match &s.result {
         Some(t) => spread(refabi::universe::values(t), cap),
